@@ -264,9 +264,21 @@ func runExec(w *tr.Writer, ex []tr.Ev) {
 	bucket := curBucket
 	puts, present := ensure(addr, bucket, keys, upl, fresh)
 	reset["puts"], reset["present"], reset["gw"], reset["upl"] = puts, present, gw, upl
-	reset["zdirs"] = tokList(walk(bucket, true))
 	w.Emit(reset)
-	for _, e := range ex[1:] {
+	for idx, e := range ex[1:] {
+		// a recorded trace is a script too: the first page of a recorded loop restarts that loop
+		if tr.S(e, "ev") == "page" && tr.I(e, "i") == 1 {
+			e = tr.Copy(e)
+			e["ev"], e["maxpages"] = "loop", 1
+			for _, f := range ex[idx+2:] {
+				if tr.S(f, "ev") == "end" {
+					e["maxpages"] = 12
+				}
+				if tr.S(f, "ev") != "page" || tr.I(f, "i") == 1 {
+					break
+				}
+			}
+		}
 		if tr.S(e, "ev") != "loop" {
 			continue
 		}
@@ -277,6 +289,7 @@ func runExec(w *tr.Writer, ex []tr.Ev) {
 		}
 		why := "cap"
 		for i := 1; i <= maxPages; i++ {
+			zdirs := tokList(walk(bucket, true))
 			st, r := page(addr, bucket, e, after)
 			ks := make([]string, 0)
 			for _, x := range r.Contents {
@@ -292,7 +305,7 @@ func runExec(w *tr.Writer, ex []tr.Ev) {
 			}
 			w.Emit(tr.Ev{"ev": "page", "i": i, "api": e["api"], "style": e["style"], "prefix": e["prefix"], "delim": e["delim"],
 				"maxkeys": e["maxkeys"], "after": toks(after), "status": st, "keys": tokList(ks), "cps": tokList(cps),
-				"trunc": r.IsTruncated, "next": toks(next)})
+				"trunc": r.IsTruncated, "next": toks(next), "zdirs": zdirs})
 			if st != 200 {
 				why = "error"
 				break
